@@ -231,6 +231,12 @@ class CallMixin:
             if isinstance(t, str):
                 continue
             if n in bound and bound[n].t is not TPy:
+                bv = bound[n]
+                if isinstance(bv.t, TOpt) and not isinstance(t, (TOpt,)) and bv.t.inner == t:
+                    # the contract wants a value: the caller must know it is not None
+                    self.ob('call_pre', '%s@%s.arg_%s_not_None' % (self.short(fs.key), self.frame.name, n),
+                            z3.Not(bv.t.is_none(bv.z)), props=fs.props, aux=not fs.props)
+                    bound[n] = V(t, bv.t.val(bv.z))
                 try:
                     bound[n] = coerce(bound[n], t)
                 except Unsupported:
@@ -244,6 +250,15 @@ class CallMixin:
             g = truthy(self.spec_eval(c.node, env, old_state=pre, old_locals=pre_locals))
             self.ob('call_pre', '%s@%s.%s' % (self.short(fs.key), self.frame.name, c.label), g,
                     props=c.props or fs.props, aux=not (c.props or fs.props))
+        # a callee verified under the class invariant: the caller establishes it, and gets it back
+        cinvs = []
+        if fs.handler and 'self' in bound:
+            sch = fs.inv_schema or self.spec.schema_of_type(bound['self'].t)
+            cinvs = self.spec.all_invariants(sch) if sch else []
+            for c in cinvs:
+                g = truthy(self.spec_eval(c.node, env, old_state=pre, old_locals=pre_locals))
+                self.ob('call_pre', '%s@%s.inv.%s' % (self.short(fs.key), self.frame.name, c.label), g,
+                        props=c.props, aux=not c.props)
         # exceptional outcomes
         for exc, rs in fs.raises.items():
             if rs.when is not None:
@@ -256,7 +271,7 @@ class CallMixin:
                 take = self.branch(z3.And(w, z3.Bool(fresh_name('raises_' + exc.replace('.', '_')))))
             if take:
                 self.apply_modifies(rs.modifies if rs.modifies is not None else fs.modifies)
-                for c in rs.ensures:
+                for c in list(rs.ensures) + ([] if fs.no_inv_ensures else cinvs):
                     self.assume(truthy(self.spec_eval(c.node, env, old_state=pre, old_locals=pre_locals)))
                 ev = ExcVal(exc)
                 for an, anode in rs.attrs.items():
@@ -270,7 +285,7 @@ class CallMixin:
         env['result'] = result
         if rt is not TNone:
             self.assume_wf(result)
-        for c in fs.ensures:
+        for c in list(fs.ensures) + ([] if fs.no_inv_ensures else cinvs):
             self.assume(truthy(self.spec_eval(c.node, env, old_state=pre, old_locals=pre_locals)))
         return result
 
@@ -521,7 +536,8 @@ class CallMixin:
             return coerce(v, ft)
         except Unsupported:
             if isinstance(ft, TList):
-                return V(ft, z3.Empty(ft.sort()))
+                from . import lists as L
+                return V(ft, L.l_empty(ft))
             if ft is TBytes and v.t is TStr:
                 return V(TBytes, z3.Empty(TBytes.sort()))
             return fresh(ft, 'dflt_' + fn)
